@@ -151,6 +151,61 @@ def wiring():
     return obs
 
 
+FSL = "liquid.builtin.loaders.file_system_loader:FileSystemLoader"
+
+for _sfx in ("", "_async"):
+    def _mku(sfx):
+        @contract(FSL + "._uptodate" + sfx, prop="C23", name=f"FileSystemLoader._uptodate{sfx}")
+        def upd(c):
+            """a cached template is current exactly when the file's modification time EQUALS the one
+            recorded at load time -- an older file (restored backup, mv, rsync -t) is a change too"""
+            path = VOpaque(z3.Const("source_path", U), "path")
+            mtime = c.any("recorded_mtime")
+            c.requires(z3.Or(U.is_int(mtime.t), U.is_flt(mtime.t)), "a modification time")
+
+            def entry(eng, cc, func):
+                eng.mk_path(cc.st, path.t)
+                return eng.run(func, cc.st, [path, mtime], {})
+            c.entry = entry
+
+            def post(r):
+                t = z3.simplify(r.truth()) if hasattr(r, "truth") else None
+                # the verdict is an equality test between the recorded time and the file's current time
+                def is_eq_with_recorded(e):
+                    if z3.is_eq(e):
+                        return any(z3.eq(ch, mtime.t) or (z3.is_app(ch) and any(z3.eq(x, mtime.t) for x in ch.children())) for ch in e.children())
+                    return False
+                def walk(e):
+                    if is_eq_with_recorded(e):
+                        return True
+                    if z3.is_app(e) and e.decl().name() in ("if", "and", "or", "not") :
+                        return any(walk(ch) for ch in e.children())
+                    return False
+                has_order = any(n in str(t) for n in ("<=", ">=", "flt_lt", "flt_le", "<", ">")) if t is not None else True
+                return z3.BoolVal(t is not None and walk(t) and not has_order)
+            c.ensures("up-to-date-iff-the-modification-time-equals-the-recorded-one", post)
+            c.raises("OSError")
+            c.assume_note("Path.stat() is uninterpreted (may raise OSError); the verdict must be an equality between its st_mtime and the recorded value, not an ordering")
+            c.replay("code", code=REPLAY_MTIME)
+    _mku(_sfx)
+
+REPLAY_MTIME = r'''
+def run(m):
+    import os, tempfile, time
+    from liquid import CachingFileSystemLoader, Environment
+    with tempfile.TemporaryDirectory() as d:
+        p = os.path.join(d, "t.liquid")
+        open(p, "w").write("new")
+        env = Environment(loader=CachingFileSystemLoader(d, auto_reload=True))
+        first = env.get_template("t.liquid").render()
+        open(p, "w").write("old")
+        past = time.time() - 10000
+        os.utime(p, (past, past))
+        second = env.get_template("t.liquid").render()
+    return {"violated": [first, second] != ["new", "old"], "observed": [first, second]}
+'''
+
+
 not_covered("C23", "concurrent async tasks racing on one key (both load; last write wins)", "the LRU map itself (C24)", "loaders other than the built-in ones")
 
 bounded("C23", "bounded/C23.py")
